@@ -1,6 +1,6 @@
 (* Byte-level round trip for TERMALL (every coding pass its own MQ codeword segment), with any of
    RESET, VSC, SEGSYM; no bypass, no predictable termination. *)
-From V Require Import Common.Base MQ.MqModel MQ.MqProofs MQ.MqProofsDec MQ.MqProofsRt MQ.MqProofsRt2.
+From V Require Import Common.Base MQ.MqModel MQ.MqProofs MQ.MqProofsDec MQ.MqProofsRt MQ.MqProofsRt2 MQ.MqProofsTerm MQ.MqProofsSeg.
 From V Require Import T1.T1Store T1.T1Ctx T1.T1CtxProofs T1.T1Model T1.T1Bytes T1.T1ProofsBase
   T1.T1ProofsSeq T1.T1ProofsFinal T1.T1ProofsSim T1.T1ProofsMqRt T1.T1ProofsComp T1.T1ProofsCompThm
   T1.T1ProofsRestart T1.T1ProofsTermEnc.
@@ -32,14 +32,15 @@ Qed.
 Section Rel.
 Variables (style maxbp : Z) (data plens : list Z).
 Let reset := negb (Z.land style CblkStyleReset =? 0).
+Let pterm := negb (Z.land style CblkStylePterm =? 0).
 
 (* before pass i: `done` bytes consumed, the remaining bytes are the segments of the remaining passes *)
 Definition TA (i : Z) (c1 : ichan) (c2 : segst) : Prop :=
   fst c1 = [] /\ Forall (Forall sym_mq) (snd c1) /\
   exists done done_pl cx,
     cxs_ok cx /\
-    data = done ++ concat (segs_of reset cx (map decs (snd c1))) /\
-    plens = done_pl ++ cumul (zlen done) (segs_of reset cx (map decs (snd c1))) /\
+    data = done ++ concat (segs_of pterm reset cx (map decs (snd c1))) /\
+    plens = done_pl ++ cumul (zlen done) (segs_of pterm reset cx (map decs (snd c1))) /\
     zlen done_pl = i /\
     sg_prevEnd c2 = zlen done /\ sg_need c2 = true /\
     sg_mqStarted c2 = (0 <? i) /\
@@ -53,8 +54,8 @@ Definition TB (i : Z) (c1 : ichan) (c2 : segst) : Prop :=
     sg_co c2 = CoMQ d /\
     dec_decode_list d (map snd (decs (fst c1))) = Ok (d', map fst (decs (fst c1))) /\ d_cx d' = cxn /\
     cxs_ok cxn /\
-    data = done ++ seg ++ concat (segs_of reset (if reset then cx0 else cxn) (map decs (snd c1))) /\
-    plens = done_pl ++ cumul (zlen done + zlen seg) (segs_of reset (if reset then cx0 else cxn) (map decs (snd c1))) /\
+    data = done ++ seg ++ concat (segs_of pterm reset (if reset then cx0 else cxn) (map decs (snd c1))) /\
+    plens = done_pl ++ cumul (zlen done + zlen seg) (segs_of pterm reset (if reset then cx0 else cxn) (map decs (snd c1))) /\
     zlen done_pl = i + 1 /\
     sg_segEnd c2 = zlen done + zlen seg /\ sg_segLast c2 = i /\ sg_need c2 = false /\ sg_mqStarted c2 = true.
 
@@ -80,7 +81,7 @@ Qed.
 Lemma seg_last_termall : forall fuel np i bp pt, seg_last fuel style maxbp np true i bp pt = i.
 Proof. intros [|f] np i bp pt; cbn [seg_last]; [reflexivity|]. rewrite andb_false_r. reflexivity. Qed.
 
-Opaque enc_flush enc_encode_list enc_new_cx dec_new_cx dec_decode_list dec_new mq_segment_rt enc_flush_state enc_get_buffer.
+Opaque enc_flush enc_encode_list enc_new_cx dec_new_cx dec_decode_list dec_new mq_segment_rt enc_flush_state enc_get_buffer enc_erterm seg_fn fresh_segment.
 
 Lemma TA_pre : forall i bp pt c1 c2, TA i c1 c2 ->
   fsim (TB i) (ideal_pre i bp pt false c1) (seg_pre style maxbp true reset data plens i bp pt false c2).
@@ -90,7 +91,7 @@ Proof.
   destruct rest as [|p r]; [discriminate|]. inversion E; subst c1'. clear E.
   pose proof (Forall_inv Hrest) as Hp. pose proof (Forall_inv_tail Hrest) as Hrest'.
   cbn [map segs_of concat cumul] in Hdata, Hpl.
-  destruct (mq_segment_rt cx (decs p) (proj1 Hcx) ltac:(rewrite (proj2 Hcx); apply sym_mq_decision; exact Hp))
+  destruct (fresh_segment pterm cx (decs p) (proj1 Hcx) ltac:(rewrite (proj2 Hcx); apply sym_mq_decision; exact Hp))
     as (_ & _ & dd & d' & Edd & Edec & Ecxd).
   cbv zeta in Edd, Edec, Ecxd.
   assert (Hnext : next_cx reset cx (decs p) = if reset then cx0 else d_cx d').
@@ -98,8 +99,8 @@ Proof.
   assert (Hcxn : cxs_ok (d_cx d')).
   { rewrite Ecxd. apply (next_cx_ok false cx (decs p)). exact Hcx. }
   rewrite Hnext in Hdata, Hpl. clear Hnext Ecxd.
-  remember (enc_flush (enc_encode_list (enc_new_cx cx) (decs p))) as seg eqn:Eseg. clear Eseg.
-  remember (concat (segs_of reset (if reset then cx0 else d_cx d') (map decs r))) as tailb eqn:Etb.
+  remember (seg_fn pterm cx (decs p)) as seg eqn:Eseg. clear Eseg.
+  remember (concat (segs_of pterm reset (if reset then cx0 else d_cx d') (map decs r))) as tailb eqn:Etb.
   unfold seg_pre. rewrite Hn. cbv zeta. rewrite seg_last_termall.
   assert (Ese : znth plens i 0 = zlen done + zlen seg).
   { rewrite Hpl, <- Hdl. apply znth_app_mid. }
@@ -183,34 +184,128 @@ Proof.
   rewrite rev_app_distr, rev_involutive. reflexivity.
 Qed.
 
-Theorem t1_bytes_roundtrip_termall :
+(* what EncodeLayered returns for a TERMALL style *)
+Lemma enc_layered_termall : forall (wn hn : nat) (orient style fb np : Z) (data : list Z),
+  termall_style style -> data_ok data ->
+  let maxbp := find_max_bitplane data in
+  let pl := pass_list maxbp fb np in
+  let syms := enc_passes wn hn orient style maxbp (pad_data wn hn data) pl true Leaf in
+  let segs := segs_of (negb (Z.land style CblkStylePterm =? 0)) (negb (Z.land style CblkStyleReset =? 0)) cx0 (map decs syms) in
+  fb <= maxbp -> pl <> [] ->
+  enc_layered wn hn orient style fb np data = Ok (maxbp, term_ps pl 0 segs, concat segs) /\
+  Forall (fun s => last s 0 <> 255) segs /\ length segs = length pl.
+Proof.
+  intros wn hn orient style fb np data Hs Hok maxbp pl syms segs Hge Hpl1.
+  unfold enc_layered, enc_syms. fold maxbp. fold pl. fold syms.
+  destruct (Z.ltb_spec maxbp fb); [lia|].
+  assert (Hsl : length syms = length pl) by apply enc_passes_length.
+  assert (Hsy : Forall (Forall sym_mq) syms) by (apply enc_passes_syms_termall; exact Hs).
+  set (reset := negb (Z.land style CblkStyleReset =? 0)) in *.
+  set (pterm := negb (Z.land style CblkStylePterm =? 0)) in *.
+  rewrite enc_init. unfold segs. clear segs.
+  remember pl as pl_ eqn:Epl_. remember syms as syms_ eqn:Esyms_. clear Epl_ Esyms_.
+  destruct pl_ as [|[b p] pl']; [congruence|].
+  destruct syms_ as [|s0 syms']; [cbn [length] in Hsl; lia|].
+  pose proof (Forall_inv Hsy) as Hs0. pose proof (Forall_inv_tail Hsy) as Hsy'.
+  cbn [enc_bytes_passes].
+  rewrite (termall_raw style b maxbp p Hs), (termall_term style b maxbp p Hs).
+  fold pterm. cbv iota.
+  rewrite (enc_syms_o_mq s0 _ Hs0 (enc_new_inv cx0 cx0_ok) cx0_len). cbn [obind].
+  assert (Hinv2 : enc_inv (enc_encode_list (enc_new_cx cx0) (decs s0)))
+    by (apply enc_encode_list_inv; apply enc_new_inv; exact cx0_ok).
+  rewrite (enc_terminate_fl pterm _ Hinv2). cbn [obind].
+  destruct (fresh_segment pterm cx0 (decs s0) cx0_ok ltac:(rewrite cx0_len; apply sym_mq_decision; exact Hs0))
+    as (Hfr & Hlast1 & _).
+  cbv zeta in Hfr.
+  set (er := fl pterm (enc_encode_list (enc_new_cx cx0) (decs s0))) in *.
+  remember (seg_fn pterm cx0 (decs s0)) as seg1 eqn:Eseg1.
+  assert (E1 : e_pre er = rev seg1 ++ [0]).
+  { apply (f_equal (@rev Z)) in Hfr. rewrite rev_involutive in Hfr. rewrite Hfr. cbn [rev]. reflexivity. }
+  change (set3_e (enc_reset_contexts er)) with (r_e er). fold reset.
+  assert (Hcxer : cxs_ok (e_cx er)).
+  { unfold er. rewrite fl_cx. apply (next_cx_ok false cx0 (decs s0)). exact cx0_cxs_ok. }
+  assert (HTI : TI (if reset then r_e er else er)).
+  { apply TI_after; [|exact Hcxer].
+    pose proof (fl_buf_ok pterm _ Hinv2) as Hbo. fold er in Hbo.
+    pose proof (hd_rev_last seg1) as Hhd. rewrite <- E1 in Hhd.
+    destruct (e_pre er) as [|h P'] eqn:Eer.
+    { apply (f_equal (@length Z)) in E1. rewrite app_length in E1. cbn [length] in E1. lia. }
+    exists h, P'. split; [reflexivity|]. split; [|exact Hbo]. cbn [hd] in Hhd. rewrite Hhd. exact Hlast1. }
+  assert (Hpre : e_pre (if reset then r_e er else er) = rev seg1 ++ [0]).
+  { destruct reset; [rewrite r_e_cxset; cbn [cxset e_pre]|]; exact E1. }
+  assert (Hcx3 : e_cx (if reset then r_e er else er) = next_cx reset cx0 (decs s0)).
+  { unfold next_cx. destruct reset.
+    - rewrite r_e_cxset. cbn [cxset e_cx]. apply reset_cx_19. apply Hcxer.
+    - unfold er. apply fl_cx. }
+  destruct (enc_bytes_termall_tail style maxbp pl' syms' _ seg1 Hs ltac:(cbn [length] in Hsl; lia) Hsy' HTI Hpre Hlast1)
+    as (e' & E & Hpre' & Hsegs & Hlen').
+  fold reset pterm in E, Hpre', Hsegs, Hlen'. rewrite Hcx3 in E, Hpre', Hsegs, Hlen'.
+  cbn [map segs_of concat term_ps]. rewrite <- Eseg1.
+  set (segs' := segs_of pterm reset (next_cx reset cx0 (decs s0)) (map decs syms')) in *.
+  rewrite E. cbn [obind fst snd]. rewrite (num_bytes_pre _ _ Hpre).
+  rewrite (get_buffer_pre e' (seg1 ++ concat segs') Hpre').
+  set (D := seg1 ++ concat segs').
+  set (ps := mkPass b p (zlen seg1) (zlen seg1) true :: term_ps pl' (zlen seg1) segs').
+  assert (Hsegs1 : Forall (fun s => last s 0 <> 255) (seg1 :: segs')) by (constructor; assumption).
+  assert (Hnorm : rev (normalize_rev D (rev ps) (zlen D)) = ps).
+  { rewrite normalize_rev_id; [apply rev_involutive|].
+    pose proof (term_ps_desc ((b, p) :: pl') (seg1 :: segs') [] (zlen D) Hsegs1) as Hd.
+    cbn [concat app] in Hd. fold D in Hd. change (zlen (@nil Z)) with 0 in Hd.
+    specialize (Hd ltac:(cbn; lia) ltac:(lia) []). rewrite app_nil_r in Hd. exact Hd. }
+  rewrite Hnorm. split; [reflexivity|]. split; [exact Hsegs1|]. cbn [length]. rewrite Hlen'. reflexivity.
+Qed.
+
+(* The round trip for TERMALL without LAZY (PTERM allowed).  With PTERM the stream must not be
+   empty: GetBuffer does not count a final byte 0xFF, so a codeword closed by ErtermEnc can in
+   principle be empty (hypothesis Hout; no such case exists among all decision sequences up to
+   length 6 over the T1 start contexts, and none was found by the harness). *)
+Theorem t1_bytes_roundtrip_termall_gen :
   forall (wn hn : nat) (orient style fb : Z) (data : list Z),
   termall_style style ->
   length data = (wn * hn)%nat -> data_ok data -> 0 <= fb ->
   (forall v, In v data -> exists c, v = c * 2 ^ fb) ->
+  (forall mb ps bytes,
+     enc_layered wn hn orient style fb (3 * (find_max_bitplane data - fb + 1) - 2) data = Ok (mb, ps, bytes) ->
+     ps <> [] -> bytes <> []) ->
   t1_roundtrip wn hn orient style fb data = Ok data.
 Proof.
-  intros wn hn orient style fb data Hs Hlen Hok Hfb Hmul.
-  unfold t1_roundtrip, enc_layered, enc_syms.
-  set (maxbp := find_max_bitplane data).
-  set (NP := 3 * (maxbp - fb + 1) - 2).
-  set (V := pad_data wn hn data).
-  set (pl := pass_list maxbp fb NP).
-  set (syms := enc_passes wn hn orient style maxbp V pl true Leaf).
+  intros wn hn orient style fb data Hs Hlen Hok Hfb Hmul Hout.
+  unfold t1_roundtrip.
+  set (maxbp := find_max_bitplane data) in *.
+  set (NP := 3 * (maxbp - fb + 1) - 2) in *.
   destruct (Z.ltb_spec maxbp fb) as [Hlt|Hge].
-  - cbn [obind]. f_equal.
+  - unfold enc_layered, enc_syms. fold maxbp. destruct (Z.ltb_spec maxbp fb); [|lia].
+    cbn [obind]. f_equal.
     pose proof (all_zero_below data fb Hok Hfb Hmul Hlt) as Hz.
     clear - Hz. induction data as [|a l IH]; [reflexivity|]. cbn [map].
     rewrite (Hz a (or_introl eq_refl)). f_equal. apply IH. intros v Hv. apply Hz. right. exact Hv.
-  - pose proof (find_max_bitplane_spec data Hok) as Hspec. cbv zeta in Hspec. fold maxbp in Hspec.
-    destruct Hspec as [[Hm1 _]|[Hmb _]]; [lia|].
+  - set (V := pad_data wn hn data).
+    set (pl := pass_list maxbp fb NP).
+    set (syms := enc_passes wn hn orient style maxbp V pl true Leaf).
+    set (reset := negb (Z.land style CblkStyleReset =? 0)).
+    set (pterm := negb (Z.land style CblkStylePterm =? 0)).
+    assert (Hpl1 : pl <> []).
+    { unfold pl, pass_list. destruct (Z.ltb_spec maxbp fb); [lia|]. unfold all_passes.
+      replace (Z.to_nat NP) with (S (Z.to_nat (NP - 1))) by (unfold NP; lia). cbn [firstn]. discriminate. }
+    destruct (enc_layered_termall wn hn orient style fb NP data Hs Hok Hge Hpl1) as (Eenc & Hsegs & Hlsegs).
+    fold maxbp V pl syms reset pterm in Eenc, Hsegs, Hlsegs.
+    set (segs := segs_of pterm reset cx0 (map decs syms)) in *.
     assert (Hsl : length syms = length pl) by apply enc_passes_length.
     assert (Hsy : Forall (Forall sym_mq) syms) by (apply enc_passes_syms_termall; exact Hs).
-    assert (Hpl1 : (0 < length pl)%nat).
-    { unfold pl, pass_list. destruct (Z.ltb_spec maxbp fb); [lia|]. unfold all_passes.
-      replace (Z.to_nat NP) with (S (Z.to_nat (NP - 1))) by (unfold NP; lia). cbn [firstn length]. lia. }
-    set (reset := negb (Z.land style CblkStyleReset =? 0)).
-    (* the ideal run, before the lists are taken apart *)
+    assert (Hps1 : term_ps pl 0 segs <> []).
+    { destruct pl as [|[b p] pl']; [congruence|]. destruct segs; [discriminate|]. discriminate. }
+    pose proof (Hout _ _ _ Eenc Hps1) as HDne.
+    rewrite Eenc. cbn [obind].
+    set (D := concat segs) in *. set (ps := term_ps pl 0 segs) in *.
+    assert (Hplens : map p_rate ps = cumul 0 segs).
+    { unfold ps. apply term_ps_rates. symmetry. exact Hlsegs. }
+    assert (Hpslen : length ps = length pl).
+    { unfold ps. clear - Hlsegs. revert Hlsegs. generalize 0. generalize segs.
+      induction pl as [|[b' p'] pl IH]; intros [|s sg] z H; try discriminate; [reflexivity|].
+      cbn [term_ps length]. f_equal. apply IH. cbn [length] in H. lia. }
+    clearbody ps.
+    destruct ps as [|p0 psr]; [congruence|].
+    (* the ideal run *)
     destruct (t1_ideal_roundtrip wn hn orient style fb NP data Hlen Hok Hfb Hmul ltac:(fold maxbp; unfold NP; lia))
       as (st & Eid & Hdata).
     change (snd (enc_syms wn hn orient style fb NP data)) with syms in Eid.
@@ -219,95 +314,29 @@ Proof.
     assert (El : zlen syms = zlen pl) by (unfold zlen; rewrite Hsl; reflexivity).
     assert (Epl0 : pass_list maxbp 0 (zlen pl) = pl) by (unfold pl; apply pass_list_dec; exact Hfb).
     rewrite El, Epl0 in Eid.
-    (* the encoder *)
-    rewrite enc_init.
-    remember pl as pl_ eqn:Epl_. remember syms as syms_ eqn:Esyms_.
-    destruct pl_ as [|[b p] pl']; [cbn [length] in Hpl1; lia|].
-    destruct syms_ as [|s0 syms']; [cbn [length] in Hsl; lia|].
-    pose proof (Forall_inv Hsy) as Hs0. pose proof (Forall_inv_tail Hsy) as Hsy'.
-    cbn [enc_bytes_passes].
-    rewrite (termall_raw style b maxbp p Hs), (termall_term style b maxbp p Hs).
-    destruct (termall_bits style Hs) as (Elazy & Epterm & Eterm). rewrite Epterm. change (negb (0 =? 0)) with false.
-    cbv iota.
-    rewrite (enc_syms_o_mq s0 _ Hs0 (enc_new_inv cx0 cx0_ok) cx0_len). cbn [obind].
-    unfold enc_terminate. cbn [obind].
-    destruct (mq_segment_rt cx0 (decs s0) cx0_ok ltac:(rewrite cx0_len; apply sym_mq_decision; exact Hs0))
-      as (Hfr & Hne & _).
-    cbv zeta in Hfr, Hne.
-    set (e2 := enc_encode_list (enc_new_cx cx0) (decs s0)) in *.
-    assert (Hinv2 : enc_inv e2) by (apply enc_encode_list_inv; apply enc_new_inv; exact cx0_ok).
-    destruct (flush_state_spec e2 Hinv2) as (h & P' & EP & _ & Hh & Hb).
-    set (er := enc_flush_state e2) in *.
-    remember (enc_flush e2) as seg1 eqn:Eseg1.
-    change (set3_e (enc_reset_contexts er)) with (r_e er). fold reset.
-    assert (Hcxer : cxs_ok (e_cx er)).
-    { unfold er. rewrite flush_state_cx. apply (next_cx_ok false cx0 (decs s0)). exact cx0_cxs_ok. }
-    assert (HTI : TI (if reset then r_e er else er)).
-    { apply TI_after; [exists h, P'; auto|exact Hcxer]. }
-    assert (Hpre : e_pre (if reset then r_e er else er) = rev seg1 ++ [0]).
-    { assert (E : e_pre er = rev seg1 ++ [0]).
-      { apply (f_equal (@rev Z)) in Hfr. rewrite rev_involutive in Hfr. rewrite Hfr. cbn [rev]. reflexivity. }
-      destruct reset; [rewrite r_e_cxset; cbn [cxset e_pre]|]; exact E. }
-    assert (Hcx3 : e_cx (if reset then r_e er else er) = next_cx reset cx0 (decs s0)).
-    { unfold next_cx. destruct reset.
-      - rewrite r_e_cxset. cbn [cxset e_cx]. apply reset_cx_19. apply Hcxer.
-      - unfold er. apply flush_state_cx. }
-    destruct (enc_bytes_termall_tail style maxbp pl' syms' _ seg1 Hs ltac:(cbn [length] in Hsl; lia) Hsy' HTI Hpre)
-      as (e' & E & Hpre' & Hsegs & Hlen').
-    fold reset in E, Hpre', Hsegs, Hlen'. rewrite Hcx3 in E, Hpre', Hsegs, Hlen'.
-    set (segs' := segs_of reset (next_cx reset cx0 (decs s0)) (map decs syms')) in *.
-    rewrite E. cbn [obind fst snd]. rewrite (num_bytes_pre _ _ Hpre).
-    set (D := seg1 ++ concat segs') in *.
-    rewrite (get_buffer_pre e' D Hpre').
-    (* the pass records survive normalizePassRates *)
-    set (ps := mkPass b p (zlen seg1) (zlen seg1) true :: term_ps pl' (zlen seg1) segs').
-    assert (Eps : ps = term_ps ((b, p) :: pl') 0 (seg1 :: segs')) by reflexivity.
-    assert (Hsegs1 : Forall (fun s => s <> [] /\ last s 0 <> 255) (seg1 :: segs')).
-    { constructor; [|exact Hsegs]. split; [exact Hne|].
-      (* the last byte of the first codeword is the head of the flushed buffer *)
-      assert (E1 : e_pre er = rev seg1 ++ [0]).
-      { apply (f_equal (@rev Z)) in Hfr. rewrite rev_involutive in Hfr. rewrite Hfr. cbn [rev]. reflexivity. }
-      destruct (rev seg1) as [|x xs] eqn:Er.
-      { apply (f_equal (@rev Z)) in Er. rewrite rev_involutive in Er. cbn in Er. congruence. }
-      rewrite EP in E1. cbn [app] in E1. injection E1 as Ex _. subst x.
-      assert (Es : seg1 = rev xs ++ [h]).
-      { apply (f_equal (@rev Z)) in Er. rewrite rev_involutive in Er. exact Er. }
-      rewrite Es, last_last. exact Hh. }
-    assert (Hnorm : rev (normalize_rev D (rev ps) (zlen D)) = ps).
-    { rewrite normalize_rev_id; [apply rev_involutive|]. rewrite Eps.
-      pose proof (term_ps_desc ((b, p) :: pl') (seg1 :: segs') [] (zlen D) Hsegs1) as Hd.
-      cbn [concat app] in Hd. fold D in Hd. change (zlen (@nil Z)) with 0 in Hd.
-      specialize (Hd ltac:(lia) []). rewrite app_nil_r in Hd. exact Hd. }
-    rewrite Hnorm.
     (* the decoder *)
-    assert (Hplens : map p_rate ps = cumul 0 (seg1 :: segs')).
-    { rewrite Eps. apply term_ps_rates. cbn [length]. rewrite Hlen'. reflexivity. }
-    unfold ps at 1. cbv iota.
     unfold dec_layered.
-    assert (HDne : D <> []) by (unfold D; destruct seg1; [congruence|discriminate]).
-    destruct D as [|by0 byr] eqn:ED; [congruence|]. rewrite <- ED in *.
-    rewrite Hplens. cbn [cumul]. rewrite Elazy. rewrite Eterm. cbn [negb andb]. cbv iota.
+    destruct D as [|by0 byr] eqn:ED; [congruence|].
+    rewrite Hplens.
+    destruct (cumul 0 segs) as [|c0 cr] eqn:Ecum.
+    { destruct segs; [|discriminate]. cbn [length] in Hlsegs. destruct pl; [congruence|discriminate]. }
+    cbv iota. rewrite <- ED, <- Ecum.
+    destruct (termall_bits style Hs) as (Elazy & Eterm). rewrite Elazy. rewrite Eterm. cbn [negb andb]. cbv iota.
     fold reset. rewrite orb_diag.
-    change (0 + zlen seg1 :: cumul (0 + zlen seg1) segs') with (cumul 0 (seg1 :: segs')).
-    set (plens := cumul 0 (seg1 :: segs')).
-    assert (Enp : zlen plens = zlen ((b, p) :: pl')).
-    { unfold plens. rewrite <- Hplens. unfold zlen. rewrite map_length. unfold ps. cbn [length].
-      f_equal. f_equal. clear - Hlen'. revert Hlen'. generalize (zlen seg1). generalize segs'.
-      induction pl' as [|[b' p'] pl' IH]; intros [|s sg] z H; try discriminate; [reflexivity|].
-      cbn [term_ps length]. f_equal. apply IH. cbn [length] in H. lia. }
+    set (plens := cumul 0 segs) in *.
+    assert (Enp : zlen plens = zlen pl).
+    { rewrite Ecum, <- Hplens. unfold zlen. rewrite map_length, Hpslen. reflexivity. }
     rewrite Enp. rewrite Epl0.
     pose proof (dec_passes_fsim ideal_ask seg_ask (TA style D plens) (TB style D plens)
                   ideal_pre ideal_post (seg_pre style maxbp true reset D plens) (seg_post reset)
-                  wn hn orient style maxbp false (TB_ask style D plens) ((b, p) :: pl') 0 (Leaf, Leaf)
-                  ([], s0 :: syms') (mkSeg CoNone [] 0 0 0 true false)) as Hsim.
+                  wn hn orient style maxbp false (TB_ask style D plens) pl 0 (Leaf, Leaf)
+                  ([], syms) (mkSeg CoNone [] 0 0 0 true false)) as Hsim.
     destruct (Hsim) with (a := (st, (@nil sym, @nil (list sym)))) as (bb & Eb & Hbb).
     + intros k bp pt Hn c1 c2 Hr. rewrite (termall_raw style bp maxbp pt Hs). apply TA_pre. exact Hr.
     + intros k bp pt Hn c1 c2 Hr. rewrite (termall_raw style bp maxbp pt Hs). apply TB_post; [lia|exact Hr].
     + split; [reflexivity|]. split; [exact Hsy|].
       exists [], [], cx0. cbn [fst snd sg_prevEnd sg_need sg_mqStarted sg_prevctx app].
-      split; [exact cx0_cxs_ok|].
-      split; [unfold D, segs'; cbn [map segs_of concat]; rewrite Eseg1; reflexivity|].
-      split; [unfold plens, segs'; cbn [map segs_of]; rewrite Eseg1; reflexivity|].
+      split; [exact cx0_cxs_ok|]. split; [reflexivity|]. split; [reflexivity|].
       split; [reflexivity|]. split; [reflexivity|]. split; [reflexivity|]. split; [reflexivity|].
       split; [auto|]. split; [auto|]. intros H0. lia.
     + exact Eid.
@@ -316,9 +345,41 @@ Proof.
       cbn [obind fst snd]. f_equal. exact Hdata.
 Qed.
 
+(* without PTERM the stream is never empty: FlushToOutput always leaves at least one byte *)
+Theorem t1_bytes_roundtrip_termall :
+  forall (wn hn : nat) (orient style fb : Z) (data : list Z),
+  termall_style style -> Z.land style CblkStylePterm = 0 ->
+  length data = (wn * hn)%nat -> data_ok data -> 0 <= fb ->
+  (forall v, In v data -> exists c, v = c * 2 ^ fb) ->
+  t1_roundtrip wn hn orient style fb data = Ok data.
+Proof.
+  intros wn hn orient style fb data Hs Hp Hlen Hok Hfb Hmul.
+  apply t1_bytes_roundtrip_termall_gen; auto.
+  intros mb ps bytes Eenc Hps.
+  set (maxbp := find_max_bitplane data) in *.
+  destruct (Z.ltb_spec maxbp fb) as [Hlt|Hge].
+  { unfold enc_layered, enc_syms in Eenc. fold maxbp in Eenc.
+    destruct (Z.ltb_spec maxbp fb); [|lia]. inversion Eenc; subst. congruence. }
+  set (NP := 3 * (maxbp - fb + 1) - 2) in *.
+  assert (Hpl1 : pass_list maxbp fb NP <> []).
+  { unfold pass_list. destruct (Z.ltb_spec maxbp fb); [lia|]. unfold all_passes.
+    replace (Z.to_nat NP) with (S (Z.to_nat (NP - 1))) by (unfold NP; lia). cbn [firstn]. discriminate. }
+  destruct (enc_layered_termall wn hn orient style fb NP data Hs Hok Hge Hpl1) as (E2 & _ & Hl2).
+  fold maxbp in E2, Hl2. rewrite E2 in Eenc. inversion Eenc; subst. clear Eenc.
+  rewrite Hp in *. change (negb (0 =? 0)) with false in *.
+  destruct (enc_passes wn hn orient style maxbp (pad_data wn hn data) (pass_list maxbp fb NP) true Leaf) as [|s0 sr] eqn:Es.
+  { cbn in Hl2. destruct (pass_list maxbp fb NP); [congruence|discriminate]. }
+  cbn [map segs_of concat]. intro Habs. apply app_eq_nil in Habs. destruct Habs as [Habs _].
+  assert (Hsy : Forall (Forall sym_mq) (s0 :: sr)).
+  { rewrite <- Es. apply enc_passes_syms_termall. exact Hs. }
+  destruct (mq_segment_rt cx0 (decs s0) cx0_ok ltac:(rewrite cx0_len; apply sym_mq_decision; exact (Forall_inv Hsy)))
+    as (_ & Hne & _).
+  apply Hne. rewrite <- seg_fn_false. exact Habs.
+Qed.
+
 (* ---------- what is proved at byte level, in one statement ---------- *)
 Definition style_proved (style fb : Z) : Prop :=
-  mq_style style \/ termall_style style \/ (Z.land style 5 = 0 /\ 1 <= fb).
+  mq_style style \/ (termall_style style /\ Z.land style CblkStylePterm = 0) \/ (Z.land style 5 = 0 /\ 1 <= fb).
 
 Theorem t1_bytes_roundtrip_partial :
   forall (wn hn : nat) (orient style fb : Z) (data : list Z),
@@ -327,7 +388,7 @@ Theorem t1_bytes_roundtrip_partial :
   (forall v, In v data -> exists c, v = c * 2 ^ fb) ->
   t1_roundtrip wn hn orient style fb data = Ok data.
 Proof.
-  intros wn hn orient style fb data [H|[H|[H1 H2]]] Hlen Hok Hfb Hmul.
+  intros wn hn orient style fb data [H|[[H H'] |[H1 H2]]] Hlen Hok Hfb Hmul.
   - apply t1_bytes_roundtrip_single_codeword; assumption.
   - apply t1_bytes_roundtrip_termall; assumption.
   - apply t1_bytes_roundtrip_single_codeword_fb; assumption.
